@@ -33,3 +33,8 @@ Definition zstd_buffer (n:Z) : Z := if n <? src_zstd_small_limit then src_zstd_s
 (* what zstd needs at worst for n input bytes: frame header (magic 4, descriptor 1, content size up to 8) and a 3-byte header per
    block of at most 128 KiB, incompressible blocks being stored raw (zstd format, RFC 8878; trusted) *)
 Definition zstd_worst (n:Z) : Z := n + 13 + 3 * (n / 131072 + 1).
+
+(* what zlib's deflateBound returns for n input bytes with the parameters zlib_compress5 uses (deflateInit: windowBits 15, memLevel 8, zlib
+   wrapper, no dictionary): the documented upper bound of deflate's output, and the size of the buffer zlib_compress5 allocates (zlib 1.2.x
+   deflate.c; trusted) *)
+Definition deflate_bound (n:Z) : Z := n + n / 4096 + n / 16384 + n / 33554432 + 13.
